@@ -475,6 +475,7 @@ class HWorld:
         self.mod = None  # dict(gen, magic_ok, mtime, bytes)
         self.pyc_gen = None  # version whose code the cached byte-code holds (pyc configs only), with (mtime, size) it was made for
         self.ref_dir = None
+        self.alive = []  # every Template constructed in this history stays alive (a long-lived process keeps them)
 
     def close(self):
         self.env.close()
@@ -514,6 +515,21 @@ class HWorld:
             if self.mod:
                 os.unlink(e.modpath)
                 self.mod = None
+        elif kind == "ext_regen":
+            # another process regenerates the module from the current source (what its default writer produces)
+            if self.mod is None or self.mod["gen"] != self.src[0] or not self.mod["magic_ok"]:
+                try:
+                    data = self.expected_bytes(self.src[0], e.clock.now)
+                except BaseException:  # noqa
+                    return "ext_regen:skipped", viols
+                tmp = e.modpath + ".ext"
+                with open(tmp, "wb") as f:
+                    f.write(data)
+                os.utime(tmp, (e.stamp(), e.stamp()))
+                os.replace(tmp, e.modpath)
+                self.mod = {"gen": self.src[0], "magic_ok": True, "mtime": e.stamp(), "bytes": data}
+                if self.cfg["pyc"]:
+                    self.pyc_gen = None
         elif kind == "corrupt_module":
             if self.mod and self.mod["magic_ok"]:
                 data = e.module_bytes()
@@ -547,6 +563,7 @@ class HWorld:
             e.writer_calls = []
             try:
                 t = e.construct()
+                self.alive.append(t)
                 got = t.render()
             except BaseException as ex:  # noqa
                 viols.append(("history:construct-exception:%s" % type(ex).__name__, "constructing the Template succeeds", "Template", repr(ex)[:200]))
@@ -613,7 +630,7 @@ class HWorld:
 
 
 def h_events(cfg):
-    ev = [("tick",), ("construct",), ("rm_module",), ("corrupt_module",), ("touch_module", "older"), ("touch_module", "newer")]
+    ev = [("tick",), ("construct",), ("rm_module",), ("corrupt_module",), ("touch_module", "older"), ("touch_module", "newer"), ("ext_regen",)]
     for v in ("A", "B", "C"):
         for rel in ("older", "equal", "newer") + (("samesec-earlier", "samesec-later", "epoch") if v == "B" else ()):
             ev.append(("src", v, rel))
